@@ -68,7 +68,10 @@ claim("C07",
 claim("C12",
       "Every constructor covered runs on a header whose validated fields are free full-width symbolic variables; on each "
       "path that returns normally z3 shows the header satisfies the accept predicate of the property (returns => "
-      "supported); counterexamples are replayed as real header bytes through the real constructor.",
+      "supported); counterexamples are replayed as real header bytes through the real constructor. Covered: QCOW2, VDI, "
+      "HDS, VMDK sparse header, Hyper-V headers, ESXi envelope, and the VHDX container (<= 2 region entries, <= 4-5 "
+      "metadata items; the exposed active header, size, block size, sector size and has_parent are compared with the "
+      "stored items on every accepted path).",
       TRUST, "symbolic execution of the constructors + z3 implication 'accepted => supported'", "4.12")
 
 claim("C08",
